@@ -107,6 +107,9 @@ package client
 //
 // ---- C12: ownership of the request and the response message while one request is processed -------------
 //
+// The handler may replace the response message of the writer (SetMessage / Swap): what is sent and what
+// is released afterwards is the message the writer holds when the handler has returned.
+//
 //@ func (*Conn) AcquireMessage(ctx context.Context) (m *pool.Message)
 //@   trusted
 //@   ensures m != nil && fresh(m) && len(m.msg.Options) == 0
@@ -127,6 +130,8 @@ package client
 //@   ensures [response-acquired-once] callCount(AcquireMessage) == 1
 //@   ensures [handler-once] callCount(handler) == 1 && callArg(handler, 0, 1) == req && callSeq(AcquireMessage, 0) < callSeq(handler, 0)
 //@   ensures [request-released-once-unless-hijacked] callCount(IsHijacked) == 1 && callArg(IsHijacked, 0, 0) == req && callSeq(handler, 0) < callSeq(IsHijacked, 0) && (callRes(IsHijacked, 0, 0) ==> callCount(ReleaseMessage) == 1) && (!callRes(IsHijacked, 0, 0) ==> callCount(ReleaseMessage) == 2 && callArg(ReleaseMessage, 0, 1) == req)
-//@   ensures [response-released-last] callArg(ReleaseMessage, callCount(ReleaseMessage) - 1, 1) == callRes(AcquireMessage, 0, 0) && callSeq(ReleaseMessage, callCount(ReleaseMessage) - 1) == callsTotal() - 1
-//@   ensures [sent-before-release] called(WriteMessage) ==> callArg(WriteMessage, 0, 1) == callRes(AcquireMessage, 0, 0)
+//@   ensures [response-released-last] callArg(ReleaseMessage, callCount(ReleaseMessage) - 1, 1) == callRes(Message, callCount(Message) - 1, 0) && callSeq(ReleaseMessage, callCount(ReleaseMessage) - 1) == callsTotal() - 1
+//@   ensures [sent-before-release] called(WriteMessage) ==> callArg(WriteMessage, 0, 1) == callRes(Message, callCount(Message) - 1, 0)
 //@   param handler:
+//@     modifies a0.response
+//@     ensures a0.response != nil
